@@ -44,6 +44,11 @@ CHECKS = {
             "Static rules deciding for every start/shutdown history and fault subset: start effects only when not "
             "started, settrace only when tracing is enabled, restore passes exactly the values saved before install "
             "(sys to sys, threading to threading), a failing shutdown step never skips a later step.", "4/C14"),
+    "C16": ("role binding by origin expansion at the abstract logger call and in its implementations, template-pipeline shape rules, snapshot/log agreement, exactly-once rule",
+            "Static decision that message, tracepoint id and context id reach the logger each in its own place (call sites bound "
+            "through the abstract signature; implementations' labels paired with their parameters), that the message is "
+            "'[deep] ' + Formatter over the configured text with each field evaluated once as a LOG watch in the frame, and "
+            "that the snapshot records that same message, one watch result per field and their variables.", "4/C16"),
     "C20": ("plugin call-site isolation: extension-point call sites from the resolved call graph, guard-inside-loop rule, loader shape",
             "Static rule over every plugin callback site found by callee resolution: guarded by a non-re-raising "
             "handler for Exception, inside the loop over plugins, in the site's function or on every in-repo call "
